@@ -340,7 +340,10 @@ func TestVerifActionAPI(t *testing.T) {
 		}
 		factory := hvm.NewFactory(genesis.DefaultGenesisFactory{}, &storage.BalanceHandler{}, metadata.NewDefaultManager(),
 			actionParser, authParser, morpheusvm.OutputParser, auth.Engines{}, append(defaultvm.NewDefaultOptions(), morpheusvm.With())...)
-		w.net = vmtest.NewTestNetwork(ctx, t, factory, genesis.DefaultGenesisFactory{}, 1, nil, genesisBytes, nil, nil)
+		// a generous build budget: under machine load the preamble of BuildBlock alone can exceed the default 100 ms, the
+		// builder then returns an empty block and vmtest gives up ("no transactions")
+		configBytes := []byte(`{"chain":{"targetBuildDuration":20000000000}}`)
+		w.net = vmtest.NewTestNetwork(ctx, t, factory, genesis.DefaultGenesisFactory{}, 1, nil, genesisBytes, nil, configBytes)
 		w.srv = jsonrpc.NewJSONRPCServer(w.net.VMs[0].VM)
 
 		b0, err := w.balances(ctx)
